@@ -59,6 +59,33 @@ Theorem c02_nothing_after_decision :
 Proof. exact generic_decided_run_frozen. Qed.
 Print Assumptions c02_nothing_after_decision.
 
+(* "... and the whole sequence when the run completed on its own before tuning ended": stated on the
+   WORLD, not on what the tuner noticed.  Whenever the worker of a run has exited successfully
+   (proc = ExitOk: it wrote all its reports) and the tuning loop polls once more, covering the trials
+   it regards as running, then after that poll the run is fully delivered (delivered = reported) —
+   unless the scheduler took a STOP/PAUSE decision for it.  [Coverage] is the tuner's running-set
+   discipline (every started/resumed trial is polled until its final status was fetched: Tuner.v
+   c01_started_trials_stay_polled for both start_jobs_without_delay settings; the driver checks it
+   on every whole run via run_disc).  Defects of the classes F-C02-2 / C02-I / C02-M break exactly
+   this hypothesis. *)
+Theorem c02_completed_run_fully_delivered :
+  forall evs ids decs st0 st, Forall good_ev evs -> run Generic init evs = (st0, None) ->
+  (forall j t, nth_error (trials st0) j = Some t -> fin t = Live -> In j ids) ->
+  step Generic st0 (Poll ids decs) = (st, None) ->
+  forall j t, nth_error (trials st) j = Some t -> proc t = ExitOk ->
+    (fin t = DoneOk /\ dcur t = cur t) \/ fin t = Decided.
+Proof. exact generic_completed_run_delivered. Qed.
+Print Assumptions c02_completed_run_fully_delivered.
+
+Example c02_completed_run_example :
+  let evs := [ Start [(1, 0%Z); (2, 1%Z)]; W (Emit 0%nat 1%nat); Poll [0%nat] []; W (Finish 0%nat) ]%Q in
+  Forall good_ev evs /\
+  exists st0 st t, run Generic init evs = (st0, None) /\
+    (forall j t, nth_error (trials st0) j = Some t -> fin t = Live -> In j [0%nat]) /\
+    step Generic st0 (Poll [0%nat] []) = (st, None) /\ nth_error (trials st) 0%nat = Some t /\
+    proc t = ExitOk /\ fin t = DoneOk /\ dcur t = [(1, 0%Z); (2, 1%Z)]%Q.
+Proof. exact completed_example. Qed.
+
 (* the two reads of a poll (LocalBackend._all_trial_results: status first, std.out second; the worker
    may write and exit in between).  (1) A poll that shows the trial as completed carries every report
    of its run, whatever the worker did between the reads; (2) in the other order this is false;
@@ -78,11 +105,12 @@ Proof. exact text_first_loses_tail. Qed.
 Print Assumptions c02_text_first_refuted.
 
 Theorem c02_status_first_decomposition :
-  forall t i k, proc t = Running -> (length (todo t) <= k)%nat ->
-    read_trial [Finish i] t =
-      (status_of (t_emit Generic k t), log (t_emit Generic k t), t_finish Generic (t_emit Generic k t)) /\
-    forall ids decs, Forall good_ev (poll2 ids [MFinish i k] decs).
-Proof. intros t i k Hp Hk. split; [exact (read_trial_finish_decomp t i k Hp Hk)|intros; apply poll2_good]. Qed.
+  forall m t, proc t = Running -> mid_ok m t ->
+    read_trial [w_of m] t =
+      (status_of (w_apply Generic (mid_before m) t), log (w_apply Generic (mid_before m) t),
+       fold_left (fun t w => w_apply Generic w t) (mid_after m) (w_apply Generic (mid_before m) t)) /\
+    forall ids decs, Forall good_ev (poll2 ids [m] decs).
+Proof. intros m t Hp Hk. split; [exact (read_trial_decomp m t Hp Hk)|intros; apply poll2_good]. Qed.
 Print Assumptions c02_status_first_decomposition.
 
 (* ------------------------------ simulator backend --------------------------------------------- *)
@@ -118,6 +146,40 @@ Proof.
   apply sinv_runs_ok. exact (run_SSI evs2 st1 st2 x (run_SSI evs1 init st1 None init_SSI G1 F1) G2 F2 i t2 Hi2).
 Qed.
 Print Assumptions c02_sim_nothing_after_decision.
+
+Theorem c02_sim_completed_run_fully_delivered :
+  forall evs ids decs st0 st, run_cov init evs -> run Sim init evs = (st0, None) ->
+  (forall j t, nth_error (trials st0) j = Some t -> fin t = Live -> In j ids) ->
+  step Sim st0 (Poll ids decs) = (st, None) ->
+  forall j t, nth_error (trials st) j = Some t -> proc t = ExitOk ->
+    (fin t = DoneOk /\ dcur t = cur t) \/ fin t = Decided.
+Proof. exact sim_completed_run_delivered. Qed.
+Print Assumptions c02_sim_completed_run_fully_delivered.
+
+(* blackbox simulator, "in report order": the results of a job are filed as events at start + elapsed
+   time and popped by (time, insertion counter), i.e. stably sorted by time.  For ANY time column of
+   the table (ties, dips, steps below 0.01, surrogate noise) the corrected times (mono_fix = the loop
+   at the end of _run_job_and_collect_results) are strictly increasing, positive, not earlier than
+   the table's, and as many; hence sorting the job's events by time leaves them in report order. *)
+Theorem c02_blackbox_times_increasing :
+  forall l, StronglySorted Qlt (mono_fix l) /\ Forall (fun y => 0 < y) (mono_fix l) /\
+            length (mono_fix l) = length l /\ Forall2 Qle l (mono_fix l).
+Proof.
+  intros l. destruct (mono_fix_sorted l) as (H1 & H2). split; [exact H1|]. split; [exact H2|].
+  split; [apply mono_fix_length|apply mono_fix_ge].
+Qed.
+Print Assumptions c02_blackbox_times_increasing.
+
+Theorem c02_blackbox_fixup_keeps_report_order :
+  forall i times vals,
+    sort_ts (job_events i times vals) = job_events i times vals /\
+    map (fun e => snd (snd e)) (job_events i times vals) = firstn (length times) vals.
+Proof. exact fixup_keeps_report_order. Qed.
+Print Assumptions c02_blackbox_fixup_keeps_report_order.
+
+Example c02_fixup_example :
+  map Qred (mono_fix [1; 1 # 2; 4 # 5; 2]) = [1; 101 # 100; 51 # 50; 2].
+Proof. exact fixup_example. Qed.
 
 (* script based simulator: a (re)started job gets exactly the reports its own run of the script
    wrote (patch F-C02-3), i.e. the event [Resume i reps] of the model; c02_sim_prefix_once_ordered and
